@@ -235,8 +235,61 @@ fn wrappers_case<const N: usize>(t: &mut Tape, c: &mut Case) -> CaseResult {
     Ok(())
 }
 
+// ------------------------------------------------------------------------------------------------
+// the PROVIDED methods of `ConstantTimeSelect` ("It also provides generic implementations of
+// conditional assignment and conditional swaps"): every type of the crate overrides them, so they run
+// only for a downstream type that implements `ct_select` alone — like this one (heap-allocated, not
+// `Copy`, which is what the trait exists for).
+
+#[derive(Clone, Debug, PartialEq, Eq)]
+struct Share {
+    index: crypto_bigint::U128,
+    coefficients: Vec<u64>,
+}
+
+impl crypto_bigint::ConstantTimeSelect for Share {
+    fn ct_select(a: &Self, b: &Self, choice: Choice) -> Self {
+        use subtle::ConditionallySelectable;
+        Share {
+            index: crypto_bigint::U128::conditional_select(&a.index, &b.index, choice),
+            coefficients: a.coefficients.iter().zip(b.coefficients.iter()).map(|(x, y)| u64::conditional_select(x, y, choice)).collect(),
+        }
+    }
+}
+
+fn provided_methods_case(t: &mut Tape, c: &mut Case) -> CaseResult {
+    use crypto_bigint::ConstantTimeSelect;
+    let n = t.usize_in(1, 6);
+    let p = pairs::pair(t, 2);
+    let (ca, cb) = (gen::limbs(t, n), if t.chance(1, 4) { vec![0u64; n] } else { gen::limbs(t, n) });
+    let ch = t.bool();
+    c.limbs("a.index", &p.a);
+    c.limbs("b.index", &p.b);
+    c.limbs("a.coefficients", &ca);
+    c.limbs("b.coefficients", &cb);
+    c.num("choice", ch as u64);
+    c.nontrivial(p.a != p.b || ca != cb);
+    let a0 = Share { index: uint::<2>(&p.a), coefficients: ca };
+    let b0 = Share { index: uint::<2>(&p.b), coefficients: cb };
+    let choice = Choice::from(ch as u8);
+    // ct_select: "a if choice == Choice(0); b if choice == Choice(1)"
+    let sel = Share::ct_select(&a0, &b0, choice);
+    veq!(sel, if ch { b0.clone() } else { a0.clone() }, "downstream ct_select");
+    // provided ct_assign: "Conditionally assign `other` to `self`, according to `choice`"
+    let mut x = a0.clone();
+    total("provided ConstantTimeSelect::ct_assign", || x.ct_assign(&b0, choice))?;
+    veq!(x, if ch { b0.clone() } else { a0.clone() }, "provided ConstantTimeSelect::ct_assign");
+    // provided ct_swap: "Conditionally swap `self` and `other` if `choice == 1`; otherwise, reassign both unto themselves"
+    let (mut x, mut y) = (a0.clone(), b0.clone());
+    total("provided ConstantTimeSelect::ct_swap", || Share::ct_swap(&mut x, &mut y, choice))?;
+    let want = if ch { (b0.clone(), a0.clone()) } else { (a0.clone(), b0.clone()) };
+    veq!((x, y), want, "provided ConstantTimeSelect::ct_swap (choice {})", ch as u8);
+    Ok(())
+}
+
 pub fn subchecks(_ctx: &Ctx) -> Vec<SubCheck> {
     let mut v = vec![];
+    v.push(SubCheck::new("surface/ct-select-provided-methods/downstream-type", 20_000, provided_methods_case).tape(48));
     v.push(SubCheck::new("surface/const-monty/U64", 20_000, const_monty_case::<S64, 1>).tape(32));
     v.push(SubCheck::new("surface/const-monty/U64-mod3", 5_000, const_monty_case::<S64Three, 1>).tape(32));
     v.push(SubCheck::new("surface/const-monty/U192", 20_000, const_monty_case::<S192, 3>).tape(48));
